@@ -218,6 +218,16 @@ fn transform_submodule(
         // TypDef has generics attached: only one case
         // (c) Subtype is generic with a concretisation here
 
+        // Generic bindings of the surrounding module are placeholders, not modules:
+        // they can neither take arguments nor be passed on as arguments.
+        if let Some(arg) = ident
+            .args
+            .iter()
+            .find(|arg| arg.binding == typ.ident || typ.args.contains(&arg.binding))
+        {
+            return Err(ErrorKind::UnknownModule(arg.binding.clone()).into());
+        }
+
         // Get base-node for the generic type.
         let (mut node, req_args) = nodes.get(&typ.ident)
             .expect("unreachable: parse order should guarantee, that all required modules are already parsed")
